@@ -2072,6 +2072,8 @@ Vsetname(int32       vkey, /* IN: vgroup key */
     /* copy the name over; if name exists, overwrite it */
 
     name_len = strlen(vgname); /* shortcut of length of the given name */
+    if (name_len > UINT16_MAX)   /* the length is stored as an unsigned 16-bit number */
+        HGOTO_ERROR(DFE_ARGS, FAIL);
 
     /* if name exists, release it */
     free(vg->vgname);
@@ -2140,6 +2142,8 @@ Vsetclass(int32       vkey, /* IN: vgroup key */
      */
 
     classname_len = strlen(vgclass); /* length of the given class name */
+    if (classname_len > UINT16_MAX)  /* the length is stored as an unsigned 16-bit number */
+        HGOTO_ERROR(DFE_ARGS, FAIL);
 
     /* if name exists, release it */
     free(vg->vgclass);
